@@ -109,6 +109,33 @@ def padded_env_docs():
     return out
 
 
+def env_body_start_docs():
+    """Named environments (math, ordinary, list, verbatim-like) whose body starts with blanks, a line break or a
+    blank line, followed by something that looks like an argument ([..], {..}), by text or by a command: what the
+    blanks belong to (dropped before an argument group, kept in the body) decides the second load (seeded C16-j)."""
+    names = ['equation', 'align*', 'math', 'displaymath', 'gather', 'a', 'itemize', 'verbatim']
+    heads = ['', ' ', '\t', '  ', ' \t ', '\n', ' \n', '\n ', '\n\n', '%c\n']
+    firsts = ['x', '[0,1]', '[0,1)', '[', ']', '{u}', '{u}[v]', '[v]{u}', '\\x', '\\x[1]', '\\cup [a]', '(', '$', '\\item y',
+              '\\left[', '']
+    tails = ['', ' \\subset R', ' ']
+    out = []
+    for n in names:
+        for h in heads:
+            for f in firsts:
+                for t in tails:
+                    if f == '$' and n != 'a':
+                        continue
+                    out.append('\\begin{%s}%s%s%s\\end{%s}' % (n, h, f, t, n))
+    # the same after an argument of the environment, and nested in a group / in math
+    for n in ('equation', 'a'):
+        for h in heads:
+            for f in ('x', '[0,1]', '{u}'):
+                out.append('\\begin{%s}{o}%s%s\\end{%s}' % (n, h, f, n))
+                out.append('{p\\begin{%s}%s%s\\end{%s}q}' % (n, h, f, n))
+                out.append('\\begin{a}\\begin{%s}%s%s\\end{%s}\\end{a}' % (n, h, f, n))
+    return out
+
+
 def long_arg_runs():
     """Commands and environments with long argument runs (LaTeX itself stops at nine; the parser does not)."""
     out = []
